@@ -57,6 +57,8 @@ var c18Seeds = []string{
 	`script S { poryswitch ( V ) { A : x B { y z } _ : w } } text T { poryswitch ( V ) { A : "a" _ { "b" } } } movement M { poryswitch ( V ) { A : up _ { down * 2 } } } mart Mt { poryswitch ( V ) { A : I1 _ { I2 I3 } } }`,
 	`const K = 5 const J = K + 1 const G = I1 I2 mart Mt { I0 J G ITEM_NONE } movement M { J G } text T { "J" } script S { J ( J , G ) J : goto ( J ) if ( flag ( J ) && var ( G ) == J ) { switch ( var ( J ) ) { case J : x case G : y } } } mapscripts Mp { J : S G [ J , G : S ] }`,
 	`script S { if ( flag ( A ) ) { if ( var ( B ) < 2 ) { switch ( var ( C ) ) { case 1 : while ( flag ( D ) ) { x ( ( 1 + 2 ) , "t" ) break } } } } }`,
+	// the unselected cases hold inline data; explicit texts and movements carry the names that data would get if it counted
+	`script S { poryswitch ( V ) { B { msgbox ( "b1" ) am ( 1 , moves ( m1 ) ) } C : msgbox ( "c1" ) _ { nop } } msgbox ( "own" ) poryswitch ( V ) { B : am ( 2 , moves ( m2 ) ) _ : am ( 3 , moves ( m3 ) ) } } text S_Text_1 { "user 1" } text S_Text_2 { "user 2" } movement S_Movement_1 { u } movement S_Movement_2 { d }`,
 }
 
 type c18Config struct {
@@ -682,5 +684,5 @@ func runC18(tier string) int {
 		"configurations are a covering set, not the full matrix: every option value appears in at least one configuration",
 		"an error must be a parser.ParseError with 1 <= start line <= end line <= number of lines (counting the empty line after a final newline)")
 	return r.Finish(r.Get("evaluations"), r.Get("nontrivial"),
-		"(a) every sequence of <= L tokens from a 57-lexeme alphabet after each of 29 context prefixes, with 3 suffixes; (b) every single deviation (truncation, deletion, replacement or insertion by every alphabet token) of 10 seed programs that use every production (thorough: pairs of deviations on the small seeds); (c) every sequence of <= S well-formed statement templates (25 templates, shared with C01); (d) every sequence of <= D constant definitions over three names whose values mention each other, followed by a program using them at every use site; (e) every integer from 0 to 70000 (thorough 2^20), decimal and hex, at every position that interprets a number; (e') every scaled program (templates repeated K times, blocks nested K deep, switches with K cases); (f) every string of <= N characters over 23 characters incl. multi-byte letters, a 3-byte non-letter, U+FFFD, NUL, quote, backtick, CR, bare and inside 'script S { x('; each input under a covering set of configurations (optimize, line markers/path, switches, font file/default font, command configs incl. argument positions -1 and 3 and one whose keys are the identifier-like literals of the compiler's source and its keywords, normal and lint); evaluations = input x configuration runs; non-trivial = the input is rejected (an error path is taken)")
+		"(a) every sequence of <= L tokens from a 57-lexeme alphabet after each of 29 context prefixes, with 3 suffixes; (b) every single deviation (truncation, deletion, replacement or insertion by every alphabet token) of 12 seed programs that use every production (thorough: pairs of deviations on the small seeds); (c) every sequence of <= S well-formed statement templates (25 templates, shared with C01); (d) every sequence of <= D constant definitions over three names whose values mention each other, followed by a program using them at every use site; (e) every integer from 0 to 70000 (thorough 2^20), decimal and hex, at every position that interprets a number; (e') every scaled program (templates repeated K times, blocks nested K deep, switches with K cases); (f) every string of <= N characters over 23 characters incl. multi-byte letters, a 3-byte non-letter, U+FFFD, NUL, quote, backtick, CR, bare and inside 'script S { x('; each input under a covering set of configurations (optimize, line markers/path, switches, font file/default font, command configs incl. argument positions -1 and 3 and one whose keys are the identifier-like literals of the compiler's source and its keywords, normal and lint); evaluations = input x configuration runs; non-trivial = the input is rejected (an error path is taken)")
 }
